@@ -59,11 +59,28 @@ Theorem C16_new_group_disjoint : forall c p ig t eng,
 Proof. exact new_sgroup_ok. Qed.
 Print Assumptions C16_new_group_disjoint.
 
+(* TODAY's creation (no clipping) also preserves well-formedness as long as the live groups of that engine type are whole cells
+   of the policy's current shard-group duration, i.e. the duration was not changed since they were created. PARTIAL with
+   respect to the statement: without that hypothesis today's code is refuted (Refuted.v, C16_overlap_refuted). *)
+Theorem C16_disjoint_partial : forall c db rp t eng, wf c -> t < MAXNANO1 ->
+  (forall p, get_pol c db rp = Some p -> full_cells p eng) ->
+  wf (fst (create_sg false c db rp t eng)).
+Proof. exact wf_create_sg_current. Qed.
+Print Assumptions C16_disjoint_partial.
+
+(* C15 on this command model: the step function is a function of (state, command) - replicas applying the same log hold the
+   same state - and a snapshot/restore inserted at any position of a log is invisible, provided every instant of the catalogue
+   at that position is representable as int64 nanoseconds (both variants of the step function) *)
+Theorem C16_restore_transparent : forall clip cleardef l1 l2 c, representable (run clip cleardef c l1) ->
+  run clip cleardef c (l1 ++ Restore :: l2) = run clip cleardef c (l1 ++ l2).
+Proof. exact restore_transparent. Qed.
+Print Assumptions C16_restore_transparent.
+
 (* non-vacuity: the environment hypotheses are satisfiable on a run that creates, alters, deletes and prunes *)
 Definition example_run : list cmd :=
   [CreateNode 1 1; CreateDb 1 1 0 HOUR; CreateMst 1 1 1; CreateSg 1 1 1700042400000000005 0;
    UpdateRp 1 1 None (Some DAY) false; CreateSg 1 1 1700053200000000000 0; CreateNode 2 2; CreateSg 1 1 0 0;
-   DeleteSg 1 1 1; PruneSg 1; PruneIg 77; MarkRp 1 1; DropRp 1 1; CreateSg 1 0 5 0].
+   DeleteSg 1 1 1; PruneSg 1; PruneIg 77; Restore; MarkRp 1 1; DropRp 1 1; CreateSg 1 0 5 0].
 
 Example C16_example_env : env_run (init_cat 1 true) example_run.
 Proof. apply env_run_b_sound. vm_compute. reflexivity. Qed.
